@@ -173,6 +173,12 @@ def cop(op):
         return "OSnapP %d" % op[1]
     if t == "clone":
         return "OClone %d" % op[1]
+    if t == "dfhist":
+        from harness import dfspec
+        _, cols, dtypes, specs, rows, extra = op
+        spec = dfspec.tree(cols, dtypes, specs)
+        mrows = dfspec.model_rows(rows, cols, dtypes)
+        return "ODf %s %s" % (cspec(spec), clist("(%s, %s)" % (clist(cvalue(v) for v in d), cnum(1.0)) for d in mrows))
     if t == "view":
         def copt(x):
             return "None" if x is None else "(Some %s)" % cnum(x)
